@@ -153,6 +153,15 @@ func c13FuzzString(r *hx.Rng, c c13Cfg) (string, bool) {
 	return "", false
 }
 
+func init() {
+	// every prefix of valid escape sequences, alone and after a high surrogate
+	for _, full := range []string{"\\ud801\\udc01", "\\x41\\x42", "\\U0001F600", "\\101", "\\u00e9"} {
+		for i := 1; i <= len(full); i++ {
+			c13Pools["utf8esc"] = append(c13Pools["utf8esc"], full[:i], "\\ud801"+full[:i], "a"+full[:i]+"\\")
+		}
+	}
+}
+
 // ---------------------------------------------------------------- tree helpers
 
 func c13SelPath(sel string) []string { return cfg.ParseFieldSelector(sel) }
@@ -193,12 +202,30 @@ func c13Set(root *jt.Tree, path []string, v *jt.Tree) {
 	}
 }
 
+// keys beyond jt.DefaultKeys: invalid UTF-8, quote, newline, backslash, a dot, a long one
+var c13Keys = append(append([]string(nil), jt.DefaultKeys...), "\xff", "q\"k", "n\nl", "\\", "a.b", "log", "time", "message", "x", "y", strings.Repeat("k", 70))
+
 func c13BaseObj(r *hx.Rng) *jt.Tree {
-	switch r.Intn(6) {
+	switch r.Intn(8) {
 	case 0:
 		return jt.O()
 	case 1:
 		return jt.O(jt.F("a", jt.S("x")), jt.F("b", jt.Nu("1")), jt.F("c", jt.O(jt.F("d", jt.S("y")))), jt.F("level", jt.S("info")), jt.F("msg", jt.S("m")))
+	case 2:
+		// wide object: insane-json switches to a key map above its threshold of fields
+		t := jt.O()
+		n := r.Range(17, 40)
+		for i := 0; i < n; i++ {
+			t.Obj = append(t.Obj, jt.F(fmt.Sprintf("k%d", i), jt.GenValue(r, jt.GenCfg{MaxDepth: 1, MaxWidth: 2})))
+		}
+		for _, k := range []string{"a", "b", "c", "level", "log"} {
+			if r.Bool() {
+				t.Obj = append(t.Obj, jt.F(k, jt.GenValue(r, jt.GenCfg{MaxDepth: 2, MaxWidth: 3})))
+			}
+		}
+		return t
+	case 3:
+		return jt.GenObj(r, jt.GenCfg{MaxDepth: 3, MaxWidth: 6, Keys: c13Keys, BadUTF8: true})
 	default:
 		return jt.GenObj(r, jt.GenCfg{MaxDepth: 3, MaxWidth: 5, BadUTF8: r.Chance(1, 3)})
 	}
